@@ -451,8 +451,13 @@ public:
             TLX_LOGC(ctx.debug_lcp) << "Calculate LCP after sample sort step";
             if (strptr_.with_lcp)
             {
-                ps5_sample_sort_lcp<bktnum>(ctx, classifier, strptr_, depth_,
-                                            bkt);
+                // the sorted strings are in the original array, which is the
+                // shadow of a flipped step
+                ps5_sample_sort_lcp<bktnum>(
+                    ctx, classifier,
+                    strptr_.flipped() ? strptr_.flip(0, strptr_.size()) :
+                                        strptr_,
+                    depth_, bkt);
             }
         }
     };
@@ -1503,8 +1508,12 @@ public:
             TLX_LOGC(ctx_.debug_steps)
                 << "pSampleSortStep[" << depth_ << "]: all substeps done.";
 
-            ps5_sample_sort_lcp<bktnum_>(ctx_, classifier_, strptr_, depth_,
-                                         bkt_[0].data());
+            // the sorted strings are in the original array, which is the
+            // shadow of a flipped step
+            ps5_sample_sort_lcp<bktnum_>(
+                ctx_, classifier_,
+                strptr_.flipped() ? strptr_.flip(0, strptr_.size()) : strptr_,
+                depth_, bkt_[0].data());
             bkt_[0].destroy();
         }
 
